@@ -33,9 +33,19 @@ statement without any timing: nobody is told anything but a value stored on
 its own transform for its own event, once; once a transform dispatches again
 everybody has been told everything, the latest value last; properties read
 what was stored, whatever happened to the listeners.
+
+Listener objects may be falsy (an empty container-like listener, a listener
+whose ``__bool__`` says False): part "listener-classes" and one listener of
+part "deferred".  Part "listener-lifetimes": who is listening changes while
+an assignment is being notified (a callback drops the last reference to
+another listener, removes it, registers a new one) - the listeners that stay
+are told exactly once all the same.  Part "deferred-raising": the release of
+held-back notifications is cut short by a listener that raises; enabling the
+transform again (it reports enabled already) must release the rest.
 """
 import collections
 import itertools
+import weakref
 
 from mc import env  # noqa: F401  (binds desper to the tree under test)
 from mc import kernel
@@ -72,7 +82,10 @@ RULE = ('E1: breadth-first search over histories of assignments '
         'assignment, a second transform with a listener for all events '
         'standing by.  E3 "listener-classes": the same with the two '
         'listeners drawn from the nine class shapes of layout class-shapes '
-        '(or absent), every ordered pair.  E3 "registration-histories": '
+        'and six falsy listener objects (fl<i>: container whose len() is '
+        'the number of notifications collected, fb<i>: __bool__ False; one '
+        'per event) (or absent), every ordered pair.  E3 '
+        '"registration-histories": '
         'every sequence of 1..n operations (n = 4 quick, 5 thorough) that '
         'ends with an assignment, over add_handler / remove_handler of two '
         'listener objects (all events; a rotation probe) on two transforms '
@@ -87,7 +100,8 @@ RULE = ('E1: breadth-first search over histories of assignments '
         'value, t<i>.dispatch_enabled = False / = True (also when it is '
         'already), t<i>.clear() and re-registration of the listeners of '
         't<i>, i in {0, 1}; three listeners on t0 (all events; a rotation '
-        'probe; position + scale), one on t1 (all events); the k-th '
+        'probe; position + scale), two on t1 (all events; a container-like '
+        'position listener that is falsy while empty); the k-th '
         'assignment of a property within a case takes the k-th value of a '
         'fixed list (rotations 370, -10, 725.5, 359.5, 360, -190, 540, 90 - '
         'all different modulo 360; vectors: Vec, plain tuple, Vec; always '
@@ -98,7 +112,16 @@ RULE = ('E1: breadth-first search over histories of assignments '
         'of {1, 2} quick, {1, 2, 3} thorough) x every sequence of 1..n '
         'operations (n = 5 quick, 6 thorough) over the three assignments on '
         't0, t0.dispatch_enabled = True / = False, t0.clear() and '
-        't1.dispatch_enabled = True.  E3 "constructor": '
+        't1.dispatch_enabled = True.  E3 "deferred-raising": the same '
+        'listener RAISES at its j-th notification for j in {1}, {2}, {1, 2} '
+        'x every sequence of 1..n operations (n = 5 quick, 6 thorough) over '
+        'the three assignments on t0, t0.dispatch_enabled = True / = False '
+        'and t0.clear(), t0 disabled at the start.  E3 '
+        '"listener-lifetimes": three all-events listeners on t0, three '
+        'assignments of one property (each property), during the second '
+        'one listener drops the last reference to another one / removes it '
+        '/ registers a new one from inside its callback, every ordered '
+        '(actor, victim) pair.  E3 "constructor": '
         'every combination of '
         '(position, rotation, scale) drawn from the same sets or omitted, '
         'positional and keyword.  E3 "reentrant": one correcting listener '
@@ -120,7 +143,8 @@ RULE = ('E1: breadth-first search over histories of assignments '
         'listener for the event, several listeners, plain tuple value, '
         'assignment nested in a callback, assignment while disabled, '
         'notification delivered by a later operation, release interrupted '
-        'by a listener / resumed, the other transform enabled or cleared '
+        'by a listener / by an exception / resumed, falsy listener, '
+        'listener dropped / removed / added during delivery, the other transform enabled or cleared '
         'while notifications are pending, clear() of a transform holding '
         'assigned values).')
 
@@ -225,12 +249,63 @@ class Probe(BaseListener):
 CLASS_KINDS = tuple(f'{k}{i}' for k in ('hb', 'hs', 'p') for i in range(3))
 
 
+# -- listeners that are falsy objects ----------------------------------------
+#   fl<i>  container-like listener for EVENTS[i] (a trail of the values it was
+#          told): ``len()`` = number of notifications collected so far, so it
+#          is a FALSY object until its first notification, truthy afterwards
+#   fb<i>  listener for EVENTS[i] whose ``__bool__`` always answers False
+# The EventHandler protocol only asks for ``__events__``; the statement says
+# "each listener".
+class BaseTrail(BaseListener):
+    def __init__(self, label, log):
+        super().__init__(label, log)
+        self.items = []
+
+    def __len__(self):
+        return len(self.items)
+
+    def collect(self, event, args, kwargs):
+        self.log.append((self.label, event, args, kwargs))
+        self.items.append(args)
+
+    def on_position_change(self, *args, **kwargs):
+        self.collect(EVENTS[0], args, kwargs)
+
+    def on_rotation_change(self, *args, **kwargs):
+        self.collect(EVENTS[1], args, kwargs)
+
+    def on_scale_change(self, *args, **kwargs):
+        self.collect(EVENTS[2], args, kwargs)
+
+
+class BaseNever(BaseListener):
+    def __bool__(self):
+        return False
+
+
+def _falsy_classes():
+    classes = {}
+    for tag, base in (('fl', BaseTrail), ('fb', BaseNever)):
+        for i in range(3):
+            cls = type(f'{base.__name__[4:]}{i}', (base,),
+                       {'__module__': __name__,
+                        'events': frozenset([EVENTS[i]])})
+            classes[f'{tag}{i}'] = desper.event_handler(EVENTS[i])(cls)
+    return classes
+
+
+FALSY = _falsy_classes()
+FALSY_KINDS = tuple(FALSY)
+
+
 def events_of(kind):
     """The events a listener of this kind is subscribed to."""
     if isinstance(kind, int):
         return LISTENER[kind].events
     if kind in HIERARCHY:
         return HIERARCHY[kind].events
+    if kind in FALSY:
+        return FALSY[kind].events
     if kind in CLASS_KINDS:
         return frozenset([EVENTS[int(kind[1:])]])
     raise ValueError(f'unknown listener kind {kind!r}')
@@ -241,6 +316,8 @@ def make_listener(kind, label, log):
         return LISTENER[kind](label, log)
     if kind in HIERARCHY:
         return HIERARCHY[kind](label, log)
+    if kind in FALSY:
+        return FALSY[kind](label, log)
     if kind in CLASS_KINDS:
         return Probe(label, log, EVENTS[int(kind[1:])])
     raise ValueError(f'unknown listener kind {kind!r}')
@@ -445,6 +522,7 @@ def judge_calls(calls, listeners, inst, prop, read, feat, hits, removed=()):
                 hits['other_event_listener'] += 1
                 if not isinstance(bits, int):
                     hits['hierarchy_base_stands_by' if bits.startswith('hb')
+                         else 'falsy_listener_stands_by' if bits[0] == 'f'
                          else 'instance_events_probe_stands_by'] += 1
             continue
         if len(mine) != 1:
@@ -474,7 +552,9 @@ def judge_calls(calls, listeners, inst, prop, read, feat, hits, removed=()):
         if not isinstance(bits, int):
             hits['hierarchy_subclass_notified' if bits.startswith('hs') else
                  'hierarchy_base_notified' if bits.startswith('hb') else
-                 'instance_events_probe_notified'] += 1
+                 'empty_container_listener_notified' if bits.startswith('fl')
+                 else 'bool_false_listener_notified' if bits.startswith('fb')
+                 else 'instance_events_probe_notified'] += 1
     if per:
         raise Violation('no_cross_talk',
                         f'calls on unknown listeners {sorted(per)}',
@@ -756,7 +836,7 @@ def class_cases(tier=None):
     """Like subset_cases, the two listeners drawn from the class shapes
     (hierarchy base / subclass instances, per-instance probes; None = not
     registered), in both registration orders."""
-    kinds = (None,) + CLASS_KINDS
+    kinds = (None,) + CLASS_KINDS + FALSY_KINDS
     cases = []
     for dim in (2, 3):
         for a in kinds:
@@ -823,6 +903,9 @@ def run_subset_case(case):
             hits['base_and_subclass_instances_together'] += 1
     if isinstance(a, str) and a.startswith('hb') and not b:
         hits['base_instance_alone'] += 1
+    if (isinstance(a, str) and isinstance(b, str)
+            and (a[0] == 'f') != (b[0] == 'f') and a[-1] == b[-1]):
+        hits['falsy_and_truthy_listener_of_one_event'] += 1
     return {'calls': 2 + len(calls), 'hits': dict(hits), 'key': repr(case)}
 
 
@@ -1184,6 +1267,226 @@ def run_reentrant_case(case):
     return {'calls': n_calls, 'hits': dict(hits), 'key': repr(case)}
 
 
+# -- E3: listeners that come and go while an assignment is being notified -----
+# Three listeners for all events on one transform.  During the second of
+# three assignments one of them (the actor) changes who is listening, from
+# inside its callback:
+#   drop    it lets go of the LAST strong reference to another listener (an
+#           owner clearing its list of children; the transform only refers to
+#           its listeners weakly, so that one ceases to exist at once)
+#   remove  t.remove_handler(another listener)
+#   add     t.add_handler(a listener that was not registered)
+# Every (actor, victim) choice is enumerated, so whatever order desper serves
+# the listeners in, some case has the victim disappear between the actor and
+# a listener that has not been served yet.
+LIFE_ACTIONS = ('drop', 'remove', 'add')
+LIFE_LABELS = ('K0', 'K1', 'K2')
+
+
+class BaseActor(BaseListener):
+    def __init__(self, label, log, transform):
+        super().__init__(label, log)
+        self.transform = transform
+        self.armed = None       # what to do at the next notification
+        self.owned = []         # listeners only this one keeps alive
+        self.target = None      # listener to remove / to add
+        self.acted = 0
+
+    def react(self, event, args, kwargs):
+        self.log.append((self.label, event, args, kwargs))
+        action, self.armed = self.armed, None
+        if action is None:
+            return
+        self.acted += 1
+        if action == 'drop':
+            del self.owned[:]
+        elif action == 'remove':
+            self.transform.remove_handler(self.target)
+        elif action == 'add':
+            self.transform.add_handler(self.target)
+        self.target = None
+
+    def on_position_change(self, *args, **kwargs):
+        self.react(EVENTS[0], args, kwargs)
+
+    def on_rotation_change(self, *args, **kwargs):
+        self.react(EVENTS[1], args, kwargs)
+
+    def on_scale_change(self, *args, **kwargs):
+        self.react(EVENTS[2], args, kwargs)
+
+
+ACTOR = desper.event_handler(*EVENTS)(
+    type('Actor', (BaseActor,), {'__module__': __name__,
+                                 'events': frozenset(EVENTS)}))
+
+
+def lifetime_cases(tier=None):
+    """(dim, prop, action, actor, victim): indices into LIFE_LABELS; for
+    'add' the victim plays no part (one choice is generated)."""
+    cases = []
+    for dim in (2, 3):
+        for prop in PROPS:
+            for action in LIFE_ACTIONS:
+                for a in range(3):
+                    for v in range(3):
+                        if v == a or (action == 'add' and v != (a + 1) % 3):
+                            continue
+                        cases.append((dim, prop, action, a, v))
+    return cases
+
+
+def judge_with_optional(calls, listeners, optional, prop, read, feat, hits):
+    """judge_calls for ``listeners``; the listeners named in ``optional``
+    (label -> reason) may have been told or not - if told then once, the
+    matching event, the value the property reads."""
+    event = EVENT_OF[prop]
+    rest = []
+    seen = collections.Counter()
+    for call in calls:
+        label, ev, args, kwargs = call
+        if label not in optional:
+            rest.append(call)
+            continue
+        seen[label] += 1
+        if ev != event:
+            raise Violation('no_cross_talk', f'{prop} assigned on t0: '
+                            f'listener {label} got {ev}', kind='other_event',
+                            **feat)
+        if seen[label] > 1:
+            raise Violation('listener_called_once',
+                            f'{prop} assigned on t0: listener {label} '
+                            f'({optional[label]}) was called more than once',
+                            count='many', **feat)
+        if len(args) != 1 or kwargs or not value_matches(args[0], read):
+            raise Violation('notified_value_is_stored_value',
+                            f'{prop} assigned on t0: listener {label} got '
+                            f'args={args!r} kwargs={kwargs!r} but t0.{prop} '
+                            f'reads {read!r}', **feat)
+    judge_calls(rest, listeners, 0, prop, read, feat, hits)
+    return seen
+
+
+def _life_setup(dim, log):
+    t = TRANSFORM[dim]()
+    other = TRANSFORM[dim]()
+    objs = [ACTOR(label, log, t) for label in LIFE_LABELS]
+    for o in objs:
+        t.add_handler(o)
+    newcomer = ACTOR('New', log, t)
+    bystander = LISTENER[7]('Other', log)
+    other.add_handler(bystander)
+    return t, other, objs, newcomer, bystander
+
+
+def run_lifetime_case(case):
+    dim, prop, action, a, v = case
+    if action not in LIFE_ACTIONS:
+        raise ValueError(f'unknown action {action!r}')
+    hits = collections.Counter()
+    log = []
+    t, other, objs, newcomer, bystander = _life_setup(dim, log)
+    feat = dict(dim=dim, prop=prop, op=action)
+    base = [(label, 7, (0,)) for label in LIFE_LABELS]
+    far = [('Other', 7, (1,))]
+    n_calls = 0
+
+    def assign(n):
+        value = deferred_value(dim, prop, n)
+        del log[:]
+        try:
+            setattr(t, prop, value)
+        except Exception as exc:
+            raise Violation('setter_raises', f't0.{prop} = {value!r} raised '
+                            f'{type(exc).__name__}: {exc} (assignment {n} '
+                            f'of the case)', **feat)
+        calls = list(log)
+        read = getattr(t, prop)
+        if len(log) != len(calls):
+            raise Violation('no_cross_talk', f'reading t0.{prop} notified '
+                            f'listeners', kind='read', **feat)
+        check_stored(dim, prop, value, read,
+                     dict(dim=dim, prop=prop, band='vector'
+                          if not is_number(value) else 'negative'
+                          if value < 0 else 'out_of_range' if value >= 360
+                          else 'in_range'), 'stores_assigned_value')
+        return calls, read
+
+    # 1: everybody listens, nothing happens (also tells the harness in which
+    #    order this dispatcher serves them - for the vacuity guard only)
+    calls, read = assign(0)
+    judge_calls(calls, base + far, 0, prop, read, feat, hits)
+    order = [c[0] for c in calls]
+    n_calls += 2 + len(calls)
+    # 2: the actor changes who is listening, from inside its callback
+    actor, victim = LIFE_LABELS[a], LIFE_LABELS[v]
+    objs[a].armed = action
+    gone = None
+    if action == 'drop':
+        gone = weakref.ref(objs[v])
+        objs[a].owned.append(objs[v])
+        objs[v] = None                      # the harness lets go of it
+    elif action == 'remove':
+        objs[a].target = objs[v]
+    else:
+        objs[a].target = newcomer
+    optional = ({'New': 'registered during this notification'}
+                if action == 'add' else
+                {victim: 'dropped during this notification' if action ==
+                 'drop' else 'removed during this notification'})
+    stable = [spec for spec in base if spec[0] not in optional]
+    calls, read = assign(1)
+    seen = judge_with_optional(calls, stable + far, optional, prop, read,
+                               feat, hits)
+    acted = sum(o.acted for o in objs if o is not None)
+    if acted != 1:
+        # cannot happen when the actor was told once (judged above)
+        raise Violation('listener_called_once', f'the acting listener '
+                        f'{actor} acted {acted} times', count='zero'
+                        if not acted else 'many', **feat)
+    hits[{'drop': 'listener_dropped_during_delivery',
+          'remove': 'listener_removed_during_delivery',
+          'add': 'listener_added_during_delivery'}[action]] += 1
+    if action == 'drop':
+        if gone() is None:
+            hits['dropped_listener_ceased_to_exist_during_delivery'] += 1
+        if (len(order) == 3 and order.index(actor) < order.index(victim)
+                and order.index(victim) < 2):
+            hits['dead_listener_ahead_of_unserved_listener'] += 1
+    if action != 'add':
+        hits['victim_served_before_it_went' if seen[victim]
+             else 'victim_not_served_any_more'] += 1
+    else:
+        hits['newcomer_served_at_once' if seen['New']
+             else 'newcomer_not_served_yet'] += 1
+    n_calls += 2 + len(calls)
+    # 3: afterwards
+    if action == 'add':
+        calls, read = assign(2)
+        judge_calls(calls, base + [('New', 7, (0,))] + far, 0, prop, read,
+                    feat, hits)
+        hits['assignment_after_listener_added_during_delivery'] += 1
+    elif action == 'remove':
+        calls, read = assign(2)
+        judge_calls(calls, stable + [(victim, 7, ())] + far, 0, prop, read,
+                    feat, hits, removed=[victim])
+        hits['assignment_after_listener_removed_during_delivery'] += 1
+    else:
+        # a dispatcher that kept the dropped listener alive may keep telling
+        # it (it is still registered then): accepted
+        calls, read = assign(2)
+        judge_with_optional(calls, stable + far,
+                            {victim: 'dropped two assignments ago'}, prop,
+                            read, feat, hits)
+        hits['assignment_after_listener_dropped_during_delivery'] += 1
+    n_calls += 2 + len(calls)
+    for p in PROPS:
+        if p != prop:
+            check_defaults(dim, t, dict(dim=dim, where='lifetimes'),
+                           props=(p,))
+    return {'calls': n_calls, 'hits': dict(hits), 'key': repr(case)}
+
+
 # -- E3: deferred notifications (dispatch_enabled, clear) ----------------------
 # A transform is an EventDispatcher: ``dispatch_enabled = False`` holds the
 # notifications back, ``dispatch_enabled = True`` releases them, ``clear()``
@@ -1206,30 +1509,43 @@ DEFER_VECTORS = (1, 2, 0)       # indices into VECTORS: Vec, plain tuple, Vec
 PROP_OF = {e: p for p, e in EVENT_OF.items()}
 # (label, kind, home transform); 'pause' = the pausing listener below
 DEFER_LISTENERS = (('Pause', 'pause', 0), ('D0.rot', 'p1', 0),
-                   ('D0.pos-scale', 5, 0), ('D1.all', 7, 1))
+                   ('D0.pos-scale', 5, 0), ('D1.all', 7, 1),
+                   ('D1.trail-pos', 'fl0', 1))
+RAISE_MAX_LEN = {'quick': 5, 'thorough': 6}
 DEFER_MAX_LEN = {'quick': 4, 'thorough': 5}
 INTERRUPT_MAX_LEN = {'quick': 5, 'thorough': 6}
 INTERRUPT_ORDINALS = {'quick': 2, 'thorough': 3}
+
+
+class ListenerError(Exception):
+    """What the pausing listener raises in mode 'raise'."""
 
 
 class BasePauser(BaseListener):
     """Listens to all three events.  On its n-th notification (counted over
     the whole case) for every n in ``ordinals`` it disables dispatching on
     its own transform from inside the callback ("hold further updates until
-    I have caught up"); with no ordinals it is a passive listener."""
+    I have caught up") or - mode 'raise' - raises ListenerError after having
+    logged the notification; with no ordinals it is a passive listener."""
 
-    def __init__(self, label, log, transform, ordinals):
+    def __init__(self, label, log, transform, ordinals, mode='disable'):
         super().__init__(label, log)
         self.transform = transform
         self.ordinals = frozenset(ordinals)
+        self.mode = mode
         self.count = 0
         self.fired = 0
+        self.raised_at = []     # positions in the log of the calls that raised
 
     def react(self, event, args, kwargs):
         self.log.append((self.label, event, args, kwargs))
         self.count += 1
         if self.count in self.ordinals:
             self.fired += 1
+            if self.mode == 'raise':
+                self.raised_at.append(len(self.log) - 1)
+                raise ListenerError(f'{self.label}: notification '
+                                    f'{self.count} ({event})')
             self.transform.dispatch_enabled = False
 
     def on_position_change(self, *args, **kwargs):
@@ -1308,6 +1624,27 @@ def interrupted_cases(tier='thorough'):
     return cases
 
 
+def raising_ops():
+    """Alphabet of part "deferred-raising": the transform of the raising
+    listener only."""
+    return ([('set', 0, prop) for prop in PROPS]
+            + [('on', 0), ('off', 0), ('clear', 0)])
+
+
+def raising_cases(tier='thorough'):
+    """(dim, start_off, ordinals, sequence, 'raise'): the pausing listener
+    raises at its j-th notification for every j of ``ordinals``."""
+    ops = raising_ops()
+    ordinal_sets = [(1,), (2,), (1, 2)]
+    cases = []
+    for n in range(1, RAISE_MAX_LEN[tier] + 1):         # shortest first
+        for dim in (2, 3):
+            for ordinals in ordinal_sets:
+                for seq in itertools.product(ops, repeat=n):
+                    cases.append((dim, 1, ordinals, seq, 'raise'))
+    return cases
+
+
 def value_matches(got, value):
     if is_number(value):
         return is_number(got) and got == value
@@ -1315,7 +1652,10 @@ def value_matches(got, value):
 
 
 def run_deferred_case(case):
-    dim, start_off, ordinals, seq = case
+    dim, start_off, ordinals, seq = case[:4]
+    mode = case[4] if len(case) > 4 else 'disable'
+    if mode not in ('disable', 'raise'):
+        raise ValueError(f'unknown mode {mode!r}')
     hits = collections.Counter()
     log = []
     ts = [TRANSFORM[dim](), TRANSFORM[dim]()]
@@ -1323,7 +1663,7 @@ def run_deferred_case(case):
     pauser = None
     for label, kind, home in DEFER_LISTENERS:
         if kind == 'pause':
-            lis = pauser = PAUSER(label, log, ts[home], ordinals)
+            lis = pauser = PAUSER(label, log, ts[home], ordinals, mode)
         else:
             lis = make_listener(kind, label, log)
         objs.append(lis)
@@ -1347,6 +1687,11 @@ def run_deferred_case(case):
     last_told = {}              # (k, prop) -> record
     counters = collections.Counter()
     interrupted = [False, False]
+    # a release of t<i> was cut short by a raising listener and the harness
+    # has not written t<i>.dispatch_enabled since: desper may be dispatching
+    # with older notifications still pending
+    raise_pending = [False, False]
+    collected = collections.Counter()   # notifications a trail has collected
     nondefault = set()
     n_calls = 0
 
@@ -1364,6 +1709,8 @@ def run_deferred_case(case):
         pending_before = [outstanding(0), outstanding(1)]
         fired_before = pauser.fired
         del log[:]
+        del pauser.raised_at[:]
+        raised = False
         try:
             if verb == 'set':
                 value = deferred_value(dim, prop, counters[prop])
@@ -1383,6 +1730,10 @@ def run_deferred_case(case):
                 raise ValueError(f'unknown operation {op!r}')
         except ValueError:
             raise
+        except ListenerError:
+            # the listener's own exception reaches the caller (or desper
+            # swallows it: the statement is silent, accepted either way)
+            raised = True
         except Exception as exc:
             raise Violation('setter_raises' if verb == 'set' else
                             'registration_raises' if verb in ('clear', 'reg')
@@ -1406,18 +1757,26 @@ def run_deferred_case(case):
             rec = dict(i=i, prop=prop, value=read, step=step, told=set(),
                        must=set(k for k in reg[i] if event in
                                 defer_events_of(DEFER_LISTENERS[k][1])))
+            if raise_pending[i] and any(
+                    a['i'] == i and a['prop'] == prop and a['must'] - a['told']
+                    for a in assigns):
+                # desper may deliver this one at once and the older pending
+                # one later: which comes last is not judged for it
+                rec['overtook'] = True
+                hits['assignment_may_overtake_pending_after_exception'] += 1
             assigns.append(rec)
             last_assign[(i, prop)] = rec
             stored[(i, prop)] = read
             nondefault.add(i)
-            if not enabled[i]:
+            if not enabled[i] and not raise_pending[i]:
                 hits['assignment_while_disabled'] += 1
                 if interrupted[i] and pending_before[i]:
                     hits['assignment_behind_interrupted_release'] += 1
             if dim == 2 and prop == 'rotation' and not 0 <= value < 360:
                 hits['rotation_out_of_range'] += 1
         # -- every call is a notification somebody was still owed
-        for label, ev, args, kwargs in calls:
+        matched = {}
+        for pos, (label, ev, args, kwargs) in enumerate(calls):
             k = index.get(label)
             if k is None:
                 raise Violation('no_cross_talk', f'{op!r}: call on unknown '
@@ -1442,10 +1801,20 @@ def run_deferred_case(case):
                         and value_matches(got, a['value'])):
                     a['told'].add(k)
                     last_told[(k, p)] = a
+                    matched[pos] = a
                     if a['step'] != step:
                         hits['notification_delivered_later'] += 1
                     else:
                         hits['listener_notified'] += 1
+                    if isinstance(kind, str) and kind.startswith('fl'):
+                        # it was empty (a falsy object) iff this is the first
+                        # notification it collects in this case
+                        first = not collected[k]
+                        collected[k] += 1
+                        hits['empty_container_listener_notified' if first
+                             else 'filled_container_listener_notified'] += 1
+                        if first and a['step'] != step:
+                            hits['empty_container_listener_told_later'] += 1
                     break
             else:
                 same = [a for a in assigns if value_matches(got, a['value'])]
@@ -1472,6 +1841,8 @@ def run_deferred_case(case):
             enabled[i] = True
             if interrupted[i] and pending_before[i]:
                 hits['release_resumed_after_interruption'] += 1
+            if raise_pending[i] and pending_before[i] and not raised:
+                hits['release_resumed_after_exception'] += 1
             interrupted[i] = False
             if pending_before[1 - i]:
                 hits['other_transform_enabled_while_notifications_pending'] \
@@ -1495,7 +1866,32 @@ def run_deferred_case(case):
                 hits['registered_after_clear'] += 1
             reg[i] = set(k for k, spec in enumerate(DEFER_LISTENERS)
                          if spec[2] == i)
-        if pauser.fired != fired_before:
+        if verb in ('off', 'on', 'clear'):
+            raise_pending[i] = False
+        if pauser.fired != fired_before and mode == 'raise':
+            # the notification during which the listener raised: whoever had
+            # not been served yet is owed nothing for it (statement silent)
+            for pos in pauser.raised_at:
+                a = matched[pos]
+                if a['must'] - a['told']:
+                    hits['listeners_unserved_behind_raising_listener'] += 1
+                a['must'] = a['must'] & a['told']
+            left = sum(1 for a in assigns
+                       if a['i'] == 0 and a['must'] - a['told'])
+            if verb == 'on' and raised:
+                # the harness's write of True did not return: the rest may
+                # be pending although desper dispatches
+                enabled[0] = False
+                interrupted[0] = True
+                raise_pending[0] = True
+                if left:
+                    hits['release_interrupted_by_exception'] += 1
+                if left >= 2:
+                    hits['release_interrupted_by_exception_two_or_more_left'] \
+                        += 1
+            if verb == 'set':
+                hits['listener_raised_in_direct_notification'] += 1
+        elif pauser.fired != fired_before:
             # the last write of t0.dispatch_enabled came from the callback
             enabled[0] = False
             interrupted[0] = True
@@ -1531,6 +1927,8 @@ def run_deferred_case(case):
             for (jj, p), a in sorted(last_assign.items(),
                                      key=lambda kv: kv[0]):
                 if jj != j:
+                    continue
+                if a.get('overtook'):
                     continue
                 for k in sorted(a['must'] & reg[j]):
                     last = last_told.get((k, p))
@@ -1671,6 +2069,8 @@ E3_PARTS = {
     'reentrant': (run_reentrant_case, reentrant_cases),
     'deferred': (run_deferred_case, deferred_cases),
     'deferred-interrupted': (run_deferred_case, interrupted_cases),
+    'deferred-raising': (run_deferred_case, raising_cases),
+    'listener-lifetimes': (run_lifetime_case, lifetime_cases),
 }
 
 
@@ -1713,8 +2113,10 @@ def run(tier, rep):
         'parts "deferred" and "deferred-interrupted" only (clear() also of '
         '"registration-histories"); elsewhere every transform dispatches.  '
         'Listeners have no side effects, except the correcting listener of '
-        'part "reentrant" and the pausing listener of part '
-        '"deferred-interrupted"; no listener raises',
+        'part "reentrant", the pausing listener of part '
+        '"deferred-interrupted", the acting listener of part '
+        '"listener-lifetimes" and the raising listener of part '
+        '"deferred-raising"; no other listener raises',
         'parts "deferred" / "deferred-interrupted": WHEN a held-back '
         'notification is delivered, and to whom of the listeners that were '
         'registered meanwhile, is C04, not C20 - accepted either way.  '
@@ -1756,6 +2158,51 @@ def run(tier, rep):
         'finally stored equals the corrected one (only: equals the last '
         'notification).  One correcting listener per transform, one '
         'correction per outer assignment.',
+        'falsy listeners: a listener object may be falsy (kinds fl<i>: a '
+        'container-like listener whose len() is the number of notifications '
+        'it has collected, empty until the first one; fb<i>: __bool__ '
+        'answers False) - it is a listener like any other ("each '
+        'listener"); explored in part "listener-classes" (every ordered '
+        'pair with every other class shape x every single assignment) and '
+        'as the position listener D1.trail-pos of t1 in part "deferred" '
+        '(told while empty, told again when filled, told later)',
+        'part "listener-lifetimes": three listeners for all events on t0, '
+        'three assignments of one property; during the second one the actor '
+        '- from inside its callback - drops the last strong reference to '
+        'another listener (the harness holds none: CPython frees it at '
+        'once, the transform refers to listeners weakly), or calls '
+        't0.remove_handler(another listener), or t0.add_handler(a new '
+        'one); every ordered (actor, victim) pair, so that under any '
+        'serving order of the dispatcher one case has the victim go between '
+        'the actor and a listener not yet served (guard '
+        'dead_listener_ahead_of_unserved_listener: judged from the order '
+        'observed at the first assignment).  Demanded: the listeners that '
+        'are registered and alive throughout are told each assignment '
+        'exactly once with the value the property reads; no other event, '
+        'no listener of the other transform; a listener removed from a '
+        'callback hears nothing of later assignments, one added from a '
+        'callback is told every later assignment once.  Accepted either '
+        'way: whether the victim / the newcomer is told of the assignment '
+        'during which it went / came (if told: once, that value), whether a '
+        'dropped listener that a dispatcher kept alive is still told.  The '
+        'actor acts once per case',
+        'part "deferred-raising": like "deferred-interrupted" but the '
+        'all-events listener of t0 RAISES (ListenerError, after logging the '
+        'notification) at its j-th notification.  The statement is silent '
+        'about raising listeners, so: the exception may reach the caller of '
+        'the assignment / of dispatch_enabled = True or not; the listeners '
+        'that had not been served for THAT notification are owed nothing; '
+        'a write of dispatch_enabled = True that raised does not count as '
+        '"the harness knows that t0 dispatches"; an assignment made after '
+        'such a write (desper dispatches, older notifications of the same '
+        'property may still be pending) is not judged for which value comes '
+        'last.  Demanded, as in the other deferred parts: properties read '
+        'what was stored although the setter raised; once a later '
+        'dispatch_enabled = True (or clear()) RETURNED, every listener has '
+        'been told every other assignment made while it was registered - '
+        'enabling a transform that reports enabled but still holds '
+        'notifications must release them - and nobody is told twice or a '
+        'foreign value',
         'quick: histories up to depth 3 (rereg: 4; depth caps reported, so '
         '`exhaustive` is false); thorough: the fixpoint of the merged state '
         'space of every layout',
@@ -1796,6 +2243,27 @@ def run(tier, rep):
                      release_resumed_after_interruption=1,
                      assignment_behind_interrupted_release=1,
                      disabled_from_callback_of_direct_notification=1,
+                     empty_container_listener_notified=1,
+                     bool_false_listener_notified=1,
+                     falsy_listener_stands_by=1,
+                     falsy_and_truthy_listener_of_one_event=1,
+                     filled_container_listener_notified=1,
+                     empty_container_listener_told_later=1,
+                     listener_dropped_during_delivery=1,
+                     dropped_listener_ceased_to_exist_during_delivery=1,
+                     dead_listener_ahead_of_unserved_listener=1,
+                     listener_removed_during_delivery=1,
+                     listener_added_during_delivery=1,
+                     assignment_after_listener_dropped_during_delivery=1,
+                     assignment_after_listener_removed_during_delivery=1,
+                     assignment_after_listener_added_during_delivery=1,
+                     release_interrupted_by_exception=1,
+                     release_interrupted_by_exception_two_or_more_left=1,
+                     release_resumed_after_exception=1,
+                     listener_raised_in_direct_notification=1,
+                     # (listeners_unserved_behind_raising_listener depends on
+                     # the order the dispatcher serves its listeners in: not
+                     # required)
                      **{f'reentrant_{d}d_{p}': 1 for d in (2, 3)
                         for p in PROPS})
     for name, (driver, kw) in drivers(tier).items():
@@ -1819,6 +2287,30 @@ def run(tier, rep):
                            'rotation_3d': f'|x| > {CLAMP} -> x clamped',
                            'position_scale': 'vectors 1 and 2 -> second '
                                              'component zeroed'})
+        if part == 'listener-classes':
+            params.update(falsy_kinds=list(FALSY_KINDS))
+        if part == 'listener-lifetimes':
+            params = dict(
+                listeners=[[lab, '111', 0] for lab in LIFE_LABELS]
+                + [['New', '111', 'registered from a callback (add)'],
+                   ['Other', '111', 1]],
+                actions=list(LIFE_ACTIONS),
+                actor_victim='every ordered pair of the three listeners '
+                             '(add: every actor)',
+                assignments='three of one property (every property), the '
+                            'action during the second',
+                values='as in part deferred: k-th value of the fixed lists')
+        if part == 'deferred-raising':
+            params = dict(
+                max_sequence_length=RAISE_MAX_LEN[tier],
+                operations=[list(op) for op in raising_ops()],
+                listeners=[[lab, kind_text(k) if k != 'pause' else
+                            'pause (raises ListenerError)', home]
+                           for lab, k, home in DEFER_LISTENERS],
+                rotations_in_order_of_assignment=list(DEFER_ROTATIONS),
+                vectors_in_order_of_assignment=list(DEFER_VECTORS),
+                disabled_at_start=['t0'],
+                raising_ordinals='{1}, {2}, {1, 2}')
         if part in ('deferred', 'deferred-interrupted'):
             inter = part == 'deferred-interrupted'
             params = dict(
